@@ -115,7 +115,7 @@ fn main() -> Result<()> {
           }
           "runes" => {
             let tag = arg_value(&args, "--tag").unwrap_or("u".into());
-            r#gen::runes(seed * 1000 + i, &format!("{tag}x{i}"), blocks, &flags)
+            r#gen::runes(seed * 1000 + i, &format!("{tag}x{i}"), blocks, &flags, &chain)
           }
           "crashpair" => {
             let p = r#gen::ProtoCfg {
